@@ -19,7 +19,7 @@ def enc(o):
 
 def P(kind, hx):
     b = bytes.fromhex(hx.replace(" ", ""))
-    ks = f"(custom {kind[1]} {kind[2]})" if isinstance(kind, tuple) else kind
+    ks = f"({kind[0]} {kind[1]} {kind[2]})" if isinstance(kind, tuple) else kind
     return {"request": f"(parse {ks} {gen.B(b)})", "meta": {"op": "parse", "kind": kind}, "bytes_hex": b.hex()}
 
 
